@@ -114,6 +114,10 @@ pub fn datasets(quick: bool) -> Vec<Dataset> {
         Dataset { alpha: "dna", seqs: vec![vec![0, 1, 2, 3, 0], vec![3, 3, 1, 0, 2, 2], vec![2, 4, 0, 1, 1]], width: 2 },
         Dataset { alpha: "dna", seqs: vec![vec![0, 1, 2, 3], vec![1, 1, 1, 1, 2], vec![3, 0, 3, 0, 4, 1], vec![2, 2, 0, 1]], width: 3 },
         Dataset { alpha: "protein", seqs: vec![vec![0, 5, 9, 20, 3], vec![9, 9, 0, 17], vec![19, 18, 0, 5, 9, 9]], width: 2 },
+        // degenerate weights: every window of sequence 1 (all G) contains a symbol with zero background frequency in the
+        // other sequences, so the weighted draw cannot be built and the start must be kept (no draw consumed);
+        // sequence 2 is hard-masked (N in every window of width 2)
+        Dataset { alpha: "dna", seqs: vec![vec![0, 0, 1, 1, 0], vec![3, 3, 3, 3, 3], vec![4, 2, 4, 0, 4, 1]], width: 2 },
     ];
     if !quick {
         v.push(Dataset { alpha: "dna", seqs: vec![vec![0, 1, 2, 3, 0, 1, 2], vec![3, 3, 1, 0, 2, 2], vec![2, 4, 0, 1, 1], vec![0, 0, 0, 3, 3]], width: 2 });
